@@ -41,6 +41,8 @@ DOCS = [
     ("A: 1\n\nB: 2", False),                                       # two paragraphs, unterminated
     ("# top\nZ: 1\n# y\nY: 2\n\n", False),                         # comments attached, trailing blank
     ("A: 1", False),
+    ("Section: x\nSHA256: y\npackage: p\nSize: 1\nPackage: q\n", True),   # mixed case, duplicated with different spelling
+    ("b: 1\nC: 2\nA: 3\nc-d: 4\n", False),                               # case-insensitive order differs from code-point order
 ]
 
 
